@@ -248,7 +248,7 @@ Definition highest_assigned (s : tx) : Z :=
 
 (* a SACK older than the last one, or acknowledging TSNs never assigned, is ignored *)
 Definition sack_ignored (s : tx) (cum : Z) : bool :=
-  uint32_gt (last_sacked s) cum || uint32_gt cum (highest_assigned s).
+  uint32_gt (last_sacked s) cum || negb (uint32_gte (highest_assigned s) cum).
 
 Definition receive_sack (s : tx) (cum : Z) (gaps : list (Z * Z)) (now : Z) : tx * list out :=
   if sack_ignored s cum then (s, [])
